@@ -45,9 +45,10 @@ class GNet(nn.Module):
             elif op == 'tcat':
                 r = torch.cat([v[j] for j in ins[1]], dim=2)
             elif op == 'flatf':
-                r = torch.flatten(v[ins[1]], 1)
+                se = ins[2] if len(ins) > 2 else (1,)
+                r = torch.flatten(v[ins[1]], *se) if se[0] != 'method' else v[ins[1]].flatten(*se[1:])
             elif op == 'squeeze':
-                r = v[ins[1]].squeeze(-1)
+                r = v[ins[1]].squeeze(ins[2] if len(ins) > 2 else -1)
             else:
                 raise ValueError(op)
             v.append(r)
@@ -161,6 +162,8 @@ def gen_program(rng, dim, opts=None):
             if cands:
                 others = rng.sample(cands, min(len(cands), rng.choice([1, 1, 2])))
                 lst = others + [cur]
+                if rng.random() < .15:
+                    lst.append(rng.choice(lst))     # the same tensor twice: torch.cat((a, b, a), 1)
                 rng.shuffle(lst)
                 cur = b.add(('cat', lst), sum(b.ch[j] for j in lst), b.sp[cur])
             else:
@@ -233,13 +236,25 @@ def gen_program(rng, dim, opts=None):
         a = b.conv(cur, keep_size=True)
         y = b.add(('cat', [a, cur]), b.ch[a] + b.ch[cur], b.sp[cur])
         cur = b.conv(y, dw=True)
-    if o.get('squeeze') and dim == 1:
-        g = b.add(('gap', cur, nn.AdaptiveAvgPool1d(1)), b.ch[cur], 1)
-        f = b.add(('squeeze', g), b.ch[cur], 1)
+    nd = dim + 2            # rank of the activations
+    if o.get('squeeze'):
+        # global pooling, then the size-1 axes squeezed away (dims given from either end)
+        g = b.add(('gap', cur, nn.AdaptiveAvgPool1d(1) if dim == 1 else nn.AdaptiveAvgPool2d(1)), b.ch[cur], 1)
+        f = b.add(('squeeze', g, rng.choice([-1, nd - 1])), b.ch[cur], 1)
+        if dim == 2:
+            f = b.add(('squeeze', f, rng.choice([-1, 2])), b.ch[cur], 1)
         feat = b.ch[cur]
     else:
         feat = b.ch[cur] * (b.sp[cur] if dim == 1 else b.sp[cur] ** 2)
-        f = b.add(('flatm', cur, nn.Flatten(1)) if rng.random() < .5 else ('flatf', cur), feat, 1)
+        # flatten variants: module / function / method, end_dim given or not, dims from either end
+        se = rng.choice([(1,), (1,), (1, -1), (1, nd - 1), (1 - nd,), (1 - nd, -1)])
+        r = rng.random()
+        if r < .4:
+            f = b.add(('flatm', cur, nn.Flatten(*se)), feat, 1)
+        elif r < .8:
+            f = b.add(('flatf', cur, se), feat, 1)
+        else:
+            f = b.add(('flatf', cur, ('method',) + se), feat, 1)
     head = o.get('head') or rng.choice(['plain', 'plain', 'plain', 'relu', 'bn', 'add', 'cat'])
     if rng.random() < .5:
         h = rng.choice([3, 4, 5])
